@@ -14,6 +14,22 @@ CHECKS = {
              "plus a Kirchhoff/potential-difference certificate on the reported numbers. Exploration: reach comes from topology, kind, "
              "label and value diversity; nothing outside the generated executions is claimed.",
         design='5/C01', technique='runtime oracle vs exact reference model + KCL certificate on observed results'),
+    'C02': dict(
+        text="Runtime oracle on DCSolution/ComplexSolution: for thousands of generated component circuits and analysis frequencies (0, at a "
+             "source frequency, just inside/outside the frequency resolution, random) every reported phasor is compared with the exact solution "
+             "of an independently tabulated component model (jwL, 1/(jwC), A e^{j phi}, short/open off-frequency), in peak, RMS and DC mode.",
+        design='5/C02', technique='runtime oracle vs exact phasor reference model'),
+    'C07': dict(
+        text="Contract-style oracle on every transform_circuit/transform call made by a workload that covers every component constructor, "
+             "edge values, list positions, ground placement and frequency classes: branch id multiset, terminal order, reference node and the "
+             "element's Z/Y/V/I (via the element protocol) are compared with an independent component table; periodic sources against the "
+             "true Fourier coefficient of their own time function.",
+        design='5/C07', technique='postcondition oracle on observed transformations vs independent component table'),
+    'C08': dict(
+        text="Runtime oracle on the harmonic classes: amplitude/phase/a/b/c of orders 0..40 and random orders up to 600 are compared with a "
+             "closed-form integral of the waveform's own sampled time function, plus Parseval with a rigorous total-variation tail bound and "
+             "lookup-by-name checks, over amplitudes/phases/offsets/periods of all six wave types.",
+        design='5/C08', technique='runtime oracle: closed-form Fourier integral of the sampled time function'),
 }
 
 NOT_YET = "check not built yet in this round (work in progress; see DESIGN.md section 5)"
